@@ -69,6 +69,23 @@ func locksAmmoIsRef(t types.Type) string {
 	return ""
 }
 
+// locksAmmoHolds: a value of this type may hold a reference (round 4: interface values and values of a type parameter
+// too — what a channel of `DecodedAmmo` / of `A` delivers; used for what a received value and a callee's receiver denote,
+// not for the flow rows)
+func locksAmmoHolds(t types.Type) bool {
+	if t == nil {
+		return false
+	}
+	if locksAmmoIsRef(t) != "" {
+		return true
+	}
+	if _, isTP := t.(*types.TypeParam); isTP {
+		return true
+	}
+	_, isIface := t.Underlying().(*types.Interface)
+	return isIface
+}
+
 type locksAmmoScan struct {
 	p      *packages.Package
 	fn     string
@@ -116,6 +133,16 @@ func (s *locksAmmoScan) bind(callee *types.Func, call *ast.CallExpr) {
 	if !ok {
 		return
 	}
+	if sel, isSel := call.Fun.(*ast.SelectorExpr); isSel && sig.Recv() != nil {
+		// round 4: what the callee's receiver is bound to (parameter -1): something of the caller's own receiver /
+		// parameters, or something the caller made itself (the result of a call, a new literal)
+		root := "own"
+		if pth := s.path(sel.X); pth != "" {
+			root = locksAmmoRoot(pth)
+		}
+		k := locksAmmoParam{callee, -1}
+		s.sites[k] = append(s.sites[k], s.fn+"|"+root)
+	}
 	for i, a := range call.Args {
 		if i >= sig.Params().Len() {
 			break
@@ -155,6 +182,14 @@ func (s *locksAmmoScan) path(e ast.Expr) string {
 		if x.Op == token.AND {
 			if b := s.path(x.X); b != "" {
 				return "&" + b
+			}
+		}
+		if x.Op == token.ARROW {
+			// round 4: what a channel of the receiver delivers is something the receiver's owner put there — a decoded ammo
+			// or a scenario definition that is delivered again on the next pass (a pooled ammo that changes hands is the
+			// reviewed exception)
+			if b := s.path(x.X); b != "" {
+				return b + "[]"
 			}
 		}
 		return ""
@@ -258,6 +293,24 @@ func (s *locksAmmoScan) scan(n ast.Node) {
 			if len(st.Lhs) == len(st.Rhs) {
 				for i := range st.Lhs {
 					s.flow(st.Lhs[i], st.Rhs[i], st.Tok == token.DEFINE)
+				}
+			} else if len(st.Lhs) == 2 && len(st.Rhs) == 1 {
+				// round 4: comma-ok receive / map look-up / type assertion: the first variable holds the reference
+				switch st.Rhs[0].(type) {
+				case *ast.UnaryExpr, *ast.IndexExpr, *ast.TypeAssertExpr:
+					if id, isId := st.Lhs[0].(*ast.Ident); isId && id.Name != "_" {
+						obj := s.p.TypesInfo.Defs[id]
+						if obj == nil {
+							obj = s.p.TypesInfo.Uses[id]
+						}
+						if _, isRoot := s.roots[obj]; obj != nil && !isRoot && locksAmmoHolds(obj.Type()) {
+							if src := s.path(st.Rhs[0]); src != "" {
+								s.alias[obj] = src
+							} else {
+								delete(s.alias, obj)
+							}
+						}
+					}
 				}
 			}
 			for _, l := range st.Lhs {
@@ -464,6 +517,25 @@ func locksAmmoFlows(t *tr, pkgs []*packages.Package) string {
 	if len(work) == 0 {
 		t.errs = append(t.errs, "http provider: (*Provider).Acquire not found")
 	}
+	// round 4: the other providers' instance-facing side — grpc/json and the scenario provider (both gun kinds' ammo)
+	for _, p := range pkgs {
+		if p.PkgPath != locksPandora+"components/providers/grpc" && p.PkgPath != locksPandora+"components/providers/scenario" {
+			continue
+		}
+		n0 := len(work)
+		if tn, ok := p.Types.Scope().Lookup("Provider").(*types.TypeName); ok {
+			for _, m := range []string{"Acquire", "Release"} {
+				if obj, _, _ := types.LookupFieldOrMethod(types.NewPointer(tn.Type()), true, p.Types, m); obj != nil {
+					if fn, ok := obj.(*types.Func); ok {
+						add(fn.Origin())
+					}
+				}
+			}
+		}
+		if len(work) == n0 {
+			t.errs = append(t.errs, p.PkgPath+": (*Provider).Acquire not found")
+		}
+	}
 	for len(work) > 0 {
 		fn := work[0]
 		work = work[1:]
@@ -550,7 +622,8 @@ func locksAmmoFlows(t *tr, pkgs []*packages.Package) string {
 			}
 			for _, site := range ss {
 				caller, root, _ := strings.Cut(site, "|")
-				bad := root == "recv"
+				// the caller's receiver is shared unless every call site of the caller binds it to something made on the spot
+				bad := root == "recv" && (len(sites[locksAmmoParam{byName[caller], -1}]) == 0 || shared[locksAmmoParam{byName[caller], -1}])
 				if strings.HasPrefix(root, "param") {
 					var j int
 					if _, err := fmt.Sscanf(root, "param%d", &j); err == nil && shared[locksAmmoParam{byName[caller], j}] {
@@ -571,6 +644,9 @@ func locksAmmoFlows(t *tr, pkgs []*packages.Package) string {
 		root := locksAmmoRoot(w[1])
 		if root == "recv" {
 			origin = "recv"
+			if k := (locksAmmoParam{byName[w[0]], -1}); len(sites[k]) > 0 && !shared[k] {
+				origin = "own-recv" // every call site binds the receiver to an object the caller has just made
+			}
 		} else {
 			var j int
 			if _, err := fmt.Sscanf(root, "param%d", &j); err == nil && shared[locksAmmoParam{byName[w[0]], j}] {
